@@ -1,4 +1,5 @@
-(* C12 — template instantiation equals literal substitution (parts (b) and (c); (a) needs the front-end model) *)
+(* C12 — template instantiation equals literal substitution: (a) parameters() is exact (over the front-end model
+   Front/Analyze.v), (b) the consistency check, (c) a parameter is the constant of its argument *)
 From Coq Require Import List NArith Bool Permutation.
 Import ListNotations.
 Require Import SV.Base.Util SV.Base.Res SV.Simp.Core SV.Layout.Ty SV.Layout.Value SV.Lang.Ast SV.Lang.Sem SV.Comp.Compile
@@ -29,3 +30,44 @@ Theorem C12_param_denotes_constant : forall jet wit args r t n v, args n = Some 
   sem jet wit args r (EParam t n) = sem jet wit args r (EConst t v).
 Proof. intros. cbn. now rewrite H. Qed.
 Print Assumptions C12_param_denotes_constant.
+
+(* (a) `parameters()` reports exactly the `param::NAME` occurrences of the program with their types: over the
+   model of the analysis (Front/Analyze.v, tied to ast.rs by the C04 correspondence), for every program the
+   analysis accepts, with the reported map [ps]:
+     - a name is reported iff `param::n` occurs in the body of main or of any other function item (called or not);
+     - the reported names are pairwise distinct (one name, one type);
+     - every `param::` node of the inlined main is reported with exactly the type of the node;
+     - every reported (n,t) is the (name,type) of a `param::` node of main or of an analysed function body. *)
+Require Import SV.Front.PTree SV.Front.Analyze SV.Front.ParamOcc SV.Proofs.ParamsExact.
+
+Theorem C12_parameters_exact_names : forall jlook jsig balias main_name p m ps ws tl,
+  analyze_program jlook jsig balias main_name p = Ok (m, ps, ws, tl) ->
+  forall n, In n (map fst ps) <-> In n (pparams_program p).
+Proof. exact parameters_exact_names. Qed.
+Print Assumptions C12_parameters_exact_names.
+
+Theorem C12_parameters_nodup : forall jlook jsig balias main_name p m ps ws tl,
+  analyze_program jlook jsig balias main_name p = Ok (m, ps, ws, tl) -> NoDup (map fst ps).
+Proof. exact parameters_nodup. Qed.
+Print Assumptions C12_parameters_nodup.
+
+Theorem C12_parameters_cover_main : forall jlook jsig balias main_name p m ps ws tl,
+  analyze_program jlook jsig balias main_name p = Ok (m, ps, ws, tl) ->
+  forall n t, In (n,t) (eparams m) -> In (n,t) ps.
+Proof. exact parameters_cover_main. Qed.
+Print Assumptions C12_parameters_cover_main.
+
+Theorem C12_parameters_types_agree : forall jlook jsig balias main_name p m ps ws tl,
+  analyze_program jlook jsig balias main_name p = Ok (m, ps, ws, tl) ->
+  forall n t t', In (n,t) ps -> In (n,t') (eparams m) -> t' = t.
+Proof. exact parameters_types_agree. Qed.
+Print Assumptions C12_parameters_types_agree.
+
+Theorem C12_parameters_typed_origin : forall jlook jsig balias main_name p m ps ws tl,
+  analyze_program jlook jsig balias main_name p = Ok (m, ps, ws, tl) ->
+  exists items g,
+    map_st (analyze_item jlook jsig balias main_name) p genv0 = Ok (items, g) /\ mains items = [m] /\
+    (forall n t, In (n,t) ps -> In (n,t) (eparams m ++ fenv_params (g_fn g))) /\
+    (forall n, In n (pparams_program p) -> exists t, In (n,t) ps /\ In (n,t) (eparams m ++ fenv_params (g_fn g))).
+Proof. exact parameters_typed_origin. Qed.
+Print Assumptions C12_parameters_typed_origin.
